@@ -439,6 +439,50 @@ def case_zero_roundtrip(prog, cfg):
     return case
 
 
+PERTURBATIONS = {
+    # name -> list of (array, time index, amount): all amounts far beyond the threshold of 1
+    "one-inflow-value": [("inflow", 1, 10)],
+    "one-interior-stock-value": [("stock", 1, 10)],               # raises the change at t=1 and lowers it at t=2: the errors cancel over time
+    "inflow-moved-between-steps": [("inflow", 0, 10), ("inflow", 2, -10)],
+    "outflow-moved-between-steps": [("outflow", 1, 10), ("outflow", 2, -10)],
+    "last-stock-value": [("stock", -1, -10)],
+}
+
+
+def case_balance_check(prog, cfg):
+    """C03: check_stock_balance accepts the computed stock (symbolic values: the balance is identically zero) and rejects it
+    after its arrays were perturbed by 10 (threshold 1), also when the perturbation's errors cancel over time"""
+    sw = SW(prog, cfg["n_t"], cfg["labels"], grid="unit")
+    cls_name = cfg["cls"]
+    case = SCase("balance-check", "Stock.check_stock_balance", dict(cfg_desc(cfg), grid="unit", perturbation=cfg["perturbation"]))
+
+    def go():
+        if cls_name == "SimpleFlowDrivenStock":
+            st = build_stock(sw, cls_name, None, inflow=sw.driver("in"), outflow=sw.driver("out"))
+        else:
+            lm, _, _ = make_lifetime(sw, "NormalLifetime", "number")
+            st = build_stock(sw, cls_name, lm, inflow=sw.driver("in"))
+        sw.it.call_method(st, "compute")
+        return st
+    kind, st = run_guarded(go)
+    if kind != "ok":
+        return case
+    qual = "Stock.check_stock_balance"
+    if cfg["perturbation"] == "none":
+        kind, r = run_guarded(lambda: sw.it.call_method(st, "check_stock_balance"))
+        case.v("self-check", kind == "ok", f"check_stock_balance() refuses a freshly computed {cls_name} ({kind}: {getattr(r, 'msg', r)!s:.100})", qual)
+        return case
+    for arr, t, amount in PERTURBATIONS[cfg["perturbation"]]:
+        v = values(st.f[arr])
+        tt = t % sw.n_t
+        for idx in v.indices():
+            if idx[0] == tt and all(i == 0 for i in idx[1:]):
+                v.set(idx, v.get(idx) + rat(amount))
+    kind, r = run_guarded(lambda: sw.it.call_method(st, "check_stock_balance"))
+    case.v("self-check", kind == "raise", f"check_stock_balance() accepts a {cls_name} whose arrays were perturbed by 10 ({cfg['perturbation']}); the threshold is 1", qual)
+    return case
+
+
 def case_failed_compute(prog, cfg):
     """C13 on stocks: a compute() that raises (here: scipy refusing a NaN in a later label's prescribed stock) leaves every array of
     the stock as it was.  Whether compute() raises at all is not demanded (the manual solver propagates the NaN)."""
